@@ -291,4 +291,46 @@ def constEagerSubs (c : ConstT) (argIns : Inputs) (valueIns : Name → Option In
 def ConstT.inputNames (c : ConstT) (argIns : Inputs) : List Name :=
   names c.consts ++ (names argIns).filter (fun n => decide (n ∉ names c.consts))
 
+/-! ### Gaussian.eager_subs: which branch fires, on names only (gaussian.py ~605-653) -/
+
+/-- The class of a substitution value as `Gaussian.eager_subs` sorts it. -/
+inductive GKind where
+  | var (x : Name)     -- Variable: renaming
+  | int                -- Number / Tensor / Slice of integer dtype
+  | real               -- Number / Tensor of dtype real
+  | affine             -- `is_affine(v) and affine_inputs(v)`, not a Variable
+  | lzy                -- anything else: stays a lazy Subs
+  deriving DecidableEq, Repr
+
+/-- One call of `eager_subs`: the branch taken, the keys it handles, and what is handed to `Subs(result, remaining)`
+    (in the code's order int + real + affine + lazy), with the inputs of the intermediate Gaussian. -/
+def gStage (inputs : List Name) (σ : List (Name × GKind)) :
+    String × List Name × List Name × List (Name × GKind) :=
+  let σ := σ.filter (fun p => inputs.contains p.1)
+  let isVar := fun (p : Name × GKind) => match p.2 with | GKind.var _ => true | _ => false
+  let vars := σ.filter isVar
+  let ints := σ.filter (fun p => p.2 == GKind.int)
+  let reals := σ.filter (fun p => p.2 == GKind.real)
+  let affs := σ.filter (fun p => p.2 == GKind.affine)
+  let lzs := σ.filter (fun p => p.2 == GKind.lzy)
+  if σ.isEmpty then ("self", [], inputs, [])
+  else if !vars.isEmpty then
+    let ren := fun k => match (vars.find? (fun p => p.1 == k)).map (·.2) with
+      | some (GKind.var x) => x
+      | _ => k
+    let inputs' := inputs.map ren
+    if inputs'.eraseDups.length != inputs'.length then ("var-conflict", vars.map (·.1), inputs, [])
+    else ("var", vars.map (·.1), inputs', ints ++ reals ++ affs ++ lzs)
+  else if !ints.isEmpty then ("int", ints.map (·.1), inputs.filter (fun k => !(ints.map (·.1)).contains k), reals ++ affs ++ lzs)
+  else if !reals.isEmpty then ("real", reals.map (·.1), inputs.filter (fun k => !(reals.map (·.1)).contains k), affs ++ lzs)
+  else if !affs.isEmpty then ("affine", affs.map (·.1), inputs.filter (fun k => !(affs.map (·.1)).contains k), lzs)
+  else ("lazy", lzs.map (·.1), inputs, [])
+
+/-- The chain of calls `Subs(result, remaining)` triggers, until nothing eager is left. -/
+def gDecide : Nat → List Name → List (Name × GKind) → List (String × List Name)
+  | 0, _, _ => []
+  | fuel + 1, inputs, σ =>
+    let st := gStage inputs σ
+    (st.1, st.2.1) :: (if st.2.2.2.isEmpty then [] else gDecide fuel st.2.2.1 st.2.2.2)
+
 end FV.C04
